@@ -263,6 +263,13 @@ class Ctx:
         self.discharged = 0
         self.axioms = {}
         self.findings = [f for f in known_findings().get("findings", []) if f.get("property") == pid]
+        # replay files of earlier runs of this property are stale
+        try:
+            for fn in os.listdir(REPLAYS):
+                if fn.startswith(pid + "-"):
+                    os.remove(os.path.join(REPLAYS, fn))
+        except OSError:
+            pass
 
     # ---------------- PROOF ----------------
     def proof(self):
